@@ -162,7 +162,8 @@ def autoname(tier):
     """K1: names the printer suppresses as auto-generated vs names the generator '%s%05d' can produce (class name 'P')."""
     import z3
     from smtk import regex2z3
-    src = open('/repo/param/parameterized.py').read()
+    import os
+    src = open(os.path.join(os.environ.get('VERIF_REPO', '/repo'), 'param/parameterized.py')).read()
     tree = ast.parse(src)
     filt = None
     gen = None
